@@ -254,6 +254,53 @@ func genC01(ctx *Ctx) {
 			}
 		}
 	}
+	// scale (direct oracle only): deep and long expressions - redundant parentheses, right-nested operators, nested calls,
+	// long argument lists, long chains, many distinct variables - at sizes beyond the round numbers a limit would sit at
+	{
+		intv := func(n int) sx.SX { return sx.L(sx.I(0), sx.N(int(variants.Integer)), sx.I(int64(n))) }
+		v := func(n string) *Tree { return &Tree{Kind: "var", Text: n} }
+		senv := sx.List{sx.L(sx.S("a"), intv(3)), sx.L(sx.S("b"), intv(5)), sx.L(sx.S("c"), intv(-2))}
+		names := []string{"a", "b", "c"}
+		for _, D := range []int{20, 70, 130, 260, 520, 1100} {
+			inner := &Tree{Kind: "bin", Op: "+", Args: []*Tree{v("a"), v("b")}}
+			ctx.OracleOnly(exprInput(strings.Repeat("(", D)+"a + b"+strings.Repeat(")", D)+" * c", senv, &Tree{Kind: "bin", Op: "*", Args: []*Tree{inner, v("c")}}), fmt.Sprintf("scale: %d redundant parentheses", D))
+			right := v(names[D%3])
+			for i := D - 1; i >= 0; i-- {
+				right = &Tree{Kind: "bin", Op: "-", Args: []*Tree{v(names[i%3]), right}}
+			}
+			p := &printer{rnd: ctx.Rnd, parens: 0}
+			ctx.OracleOnly(exprInput(p.at(right, 0), senv, right), fmt.Sprintf("scale: %d right-nested operators", D))
+			left := v("a")
+			for i := 0; i < D; i++ {
+				left = &Tree{Kind: "bin", Op: []string{"+", "-", "*"}[i%3], Args: []*Tree{left, v(names[i%3])}}
+			}
+			ctx.OracleOnly(exprInput(p.at(left, 0), senv, left), fmt.Sprintf("scale: a chain of %d operators", D))
+			call := v("a")
+			for i := 0; i < D; i++ {
+				call = &Tree{Kind: "call", Text: "f", Args: []*Tree{call}}
+			}
+			ctx.OracleOnly(exprInput(p.at(call, 0), senv, call), fmt.Sprintf("scale: %d nested calls", D))
+			wide := &Tree{Kind: "call", Text: "g"}
+			for i := 0; i < D; i++ {
+				wide.Args = append(wide.Args, v(names[i%3]))
+			}
+			ctx.OracleOnly(exprInput(p.at(wide, 0), senv, wide), fmt.Sprintf("scale: a call with %d arguments", D))
+			idx := v("a")
+			for i := 0; i < D && i < 300; i++ {
+				idx = &Tree{Kind: "bin", Op: "ELEM", Args: []*Tree{v("c"), idx}}
+			}
+			ctx.OracleOnly(exprInput(p.at(idx, 0), senv, idx), fmt.Sprintf("scale: %d nested index expressions", min(D, 300)))
+			var many sx.List
+			sum := v("v0")
+			many = append(many, sx.L(sx.S("v0"), intv(1)))
+			for i := 1; i < D && i < 300; i++ {
+				n := fmt.Sprintf("v%d", i)
+				many = append(many, sx.L(sx.S(n), intv(i+1)))
+				sum = &Tree{Kind: "bin", Op: "+", Args: []*Tree{sum, v(n)}}
+			}
+			ctx.OracleOnly(exprInput(p.at(sum, 0), many, sum), fmt.Sprintf("scale: %d distinct variables", min(D, 300)))
+		}
+	}
 	depth := 3
 	if ctx.Thorough {
 		depth = 4
